@@ -68,12 +68,13 @@ theorem rvalue_exactly_once_in_result (o : Op) (inp : Input) (a : Nat) (h : wf o
     (ha : inp.cat a = some .rv) : (outcome o inp).ExactlyOnceInResult a :=
   safe_rvalue_exactly_once (wf_ids h) (prog_safe o inp h) (prog_allToRes o inp a hk) a ha (prog_covers o inp a h hk ha)
 
-/-- **No element is destroyed** by an operation that is not one of those that destroy values by design (`drops`, 24 operations: the second
+/-- **No element is destroyed** by an operation that is not one of those that destroy values by design (`drops`, 26 operations: the second
 failure of `either::apply`, the failures before a `first_success`, a half-parsed sequence / product, the emptied `move_range`, the consumed
-second argument of `optional::combine`; and the in-place operations whose job it is - assignment and `set` overwrite, `erase` / `clear` /
+second argument of `optional::combine`, an element handed as an rvalue to a by-value function that keeps nothing (`optional::bind`,
+`either::sequence_error`); and the in-place operations whose job it is - assignment and `set` overwrite, `erase` / `clear` /
 `remove_if` / `unique_if` / `map_iteration` / `sequence_iteration` erase, `fill` overwrites): with `conserved`, every element is then live
 exactly `1 + copies` times in arguments and result together - e.g. `pop_back`'s element is in the result and the others stay in the
-container; `get_or_insert` leaves all elements where they were. For the 24 operations `conserved` accounts for every destroyed value in
+container; `get_or_insert` leaves all elements where they were. For the 26 operations `conserved` accounts for every destroyed value in
 `lost`, which the correspondence observes (`lost=` of the result line). -/
 theorem nothing_lost (o : Op) (inp : Input) (h : wf o inp = true) (hd : drops o = false) : (outcome o inp).lost = [] :=
   safe_nothing_lost (prog_safe o inp h) (prog_noDrop o inp hd)
